@@ -142,7 +142,7 @@ def positive_case(draw):
         nl = b''.join(rc.prefix6(p, path_id=i) for p, i in zip(routes, pids))
         e = [{'prefix': p, 'path_id': i} if addpath else p for p, i in zip(routes, pids)]
         if shape == 'v6':
-            nh = draw(vs.ipv6_global)
+            nh = draw(st.one_of(vs.ipv6_global, vs.ipv6_addr))      # any IPv6 address, the ones below 2^32 included
             ll = draw(st.one_of(st.none(), vs.ipv6_linklocal))
             enc.append((14, rc.a_mp_reach(2, 1, rc.ip6(nh) + (rc.ip6(ll) if ll else b''), nl, ext=True)))
             exp[14] = {'afi_safi': [2, 1], 'nexthop': nh, 'nlri': e}
